@@ -262,6 +262,17 @@ pub struct BodySpec {
     pub secs: f64,
 }
 
+/// Site prefixes a body is focused on (None = every hooked site is a scheduling point).
+pub fn focus_of(name: &str) -> Option<Vec<&'static str>> {
+    if name.contains("[focus:commit-path]") {
+        Some(vec!["batch.", "write.", "worker.before_flush", "worker.before_compact", "flush.got_watermark", "rotate.sealed", "clear.", "ingest.", "meta."])
+    } else if name.contains("[focus:write-path]") {
+        Some(vec!["write.", "batch.", "rotate.sealed", "worker.before_flush", "worker.got_msg"])
+    } else {
+        None
+    }
+}
+
 /// Folds body reports into the outcome (E3 part of a check).
 pub fn fold_e3(o: &mut Outcome, prop: &str, tier: &str, bodies: &[BodySpec], key_prefix: &str) {
     let nshards = crate::seqrun::threads().max(1);
@@ -293,8 +304,8 @@ pub fn fold_e3(o: &mut Outcome, prop: &str, tier: &str, bodies: &[BodySpec], key
         if rep.capped {
             o.cov("exhaustive", json!(false));
         }
-        if rep.completed_bound < 0 {
-            o.machinery_errors.push(format!("body {}: not even the schedules without preemption were completed", b.body.name()));
+        if rep.schedules < 20 {
+            o.machinery_errors.push(format!("body {}: only {} schedules were executed", b.body.name(), rep.schedules));
         }
         // violations: fewest preemptions / shortest first
         let mut vs = rep.violations;
@@ -346,6 +357,7 @@ pub fn shard_main(args: &[String], bodies_of: &dyn Fn(&str, &str) -> Vec<BodySpe
     let Some(b) = bodies.get(bi) else {
         return 2;
     };
+    *crate::sched::FOCUS.lock().unwrap() = focus_of(&b.body.name());
     let rep = explore_body(&*b.body, bound, Instant::now() + Duration::from_secs_f64(secs), (shard, n));
     let _ = std::fs::write(&out, serde_json::to_string(&rep.to_json()).unwrap());
     crate::explore::cleanup_scratch();
@@ -356,6 +368,7 @@ pub fn shard_main(args: &[String], bodies_of: &dyn Fn(&str, &str) -> Vec<BodySpe
 pub fn replay_schedule(body: &dyn Body, choices: &[usize]) -> i32 {
     mark_uncontrolled();
     install_sched_hooks();
+    *crate::sched::FOCUS.lock().unwrap() = focus_of(&body.name());
     let x = run_once(body, choices);
     for l in trace_str(&x.trace, &x.names) {
         println!("  {l}");
